@@ -315,7 +315,7 @@ func checkShapes(r *Run, shapes []Shape, o eqOpts, maxPaths int, assumptions ...
 func CheckC02(r *Run) int {
 	ngen := 30
 	if r.Tier != "quick" {
-		ngen = 500
+		ngen = 5000
 	}
 	return checkShapes(r, append(c02Shapes(), generatedShapes("functions", r.Seed, ngen, true, true)...), eqOpts{Target: "bash", CheckHazards: true}, 3000, "bounds: <=4 functions per shape, call nesting <=3, arity <=3 in / <=3 out; literals are unconstrained 64-bit values")
 }
@@ -325,8 +325,8 @@ func CheckC03(r *Run) int {
 	shapes := c03Shapes(deep)
 	bounds := "bounds: symbolic indices assumed in 0..12, symbolic strings of 4 bytes, substring bounds 0..4"
 	if deep {
-		shapes = append(shapes, generatedShapes("slices", r.Seed+3, 400, true, true)...)
-		bounds = "bounds: symbolic indices assumed in 0..40, symbolic strings of 6 bytes, substring bounds 0..6; plus 400 generated programs with []int variables, growth and len"
+		shapes = append(shapes, generatedShapes("slices", r.Seed+3, 4000, true, true)...)
+		bounds = "bounds: symbolic indices assumed in 0..40, symbolic strings of 6 bytes, substring bounds 0..6; plus 4000 generated programs with []int variables, growth and len"
 	}
 	return checkShapes(r, shapes, eqOpts{Target: "bash", CheckHazards: true}, 20000, bounds+"; excluded: out-of-range reads, negative indices, copy into a longer destination")
 }
@@ -336,8 +336,8 @@ func CheckC04(r *Run) int {
 	note := "tracer functions print their position; the printed sequence is compared with the reference's left-to-right, exactly-once, eager order"
 	if r.Tier != "quick" {
 		// generated programs whose functions print and write globals: any change of evaluation order or count is observable
-		shapes = append(shapes, generatedShapes("effects", r.Seed+5, 400, true, false)...)
-		note += "; thorough: plus 400 generated programs whose functions have effects (output, global updates)"
+		shapes = append(shapes, generatedShapes("effects", r.Seed+5, 4000, true, false)...)
+		note += "; thorough: plus 4000 generated programs whose functions have effects (output, global updates)"
 	}
 	return checkShapes(r, shapes, eqOpts{Target: "bash", CheckHazards: true}, 3000, note)
 }
